@@ -129,6 +129,10 @@ func DecryptMessage(ctx context.Context, ct []byte, keySource X25519KeyProducer,
 	return nil
 }
 
+// aesGcmNonceSize is the size of the nonce the aead wrapper prepends to its
+// ciphertexts
+const aesGcmNonceSize = 12
+
 func decryptWithKey(ctx context.Context, keyId string, ct []byte, sharedKey []byte, result proto.Message) error {
 	const op = "nodeenrollment.decryptWithKey"
 
@@ -144,6 +148,13 @@ func decryptWithKey(ctx context.Context, keyId string, ct []byte, sharedKey []by
 	blobInfo := new(wrapping.BlobInfo)
 	if err := proto.Unmarshal(ct, blobInfo); err != nil {
 		return fmt.Errorf("(%s) error unmarshaling incoming blob info: %w", op, err)
+	}
+
+	// The aead wrapper slices the nonce off the front of the ciphertext without
+	// checking its length and panics on shorter input; the ciphertext can be
+	// supplied by a remote party, so reject such values here
+	if len(blobInfo.GetCiphertext()) < aesGcmNonceSize {
+		return fmt.Errorf("(%s) ciphertext in incoming blob info is too short", op)
 	}
 
 	var aadOpt wrapping.Option
